@@ -1479,6 +1479,11 @@ func (f *fragment) notNull() (*Row, error) {
 
 // rangeBetween returns bitmaps with a bsiGroup value encoding matching any value between predicateMin and predicateMax.
 func (f *fragment) rangeBetween(bitDepth uint, predicateMin, predicateMax int64) (*Row, error) {
+	// An empty interval matches nothing.
+	if predicateMin > predicateMax {
+		return NewRow(), nil
+	}
+
 	b := f.row(bsiExistsBit)
 
 	// Convert predicates to unsigned values.
